@@ -100,6 +100,16 @@ def scenarios(W):
     add("illegal-frame-mute-server", [ok(msg, (2.0, "frames", bytes([0xC1, 0x01, 0x41])), answer_close=False)], "error")
     # ... and over TLS (a silent peer never sends a TLS close_notify either)
     add("close-from-on_message-mute-server-tls", mute, "own-close", hooks={"on_message": closer}, url="wss://app.test/")
+    # close() with a timeout of its own, handed through to the closing handshake: 0 = do not wait for the peer at all
+    for tmo in (0, 0.0, 0.5, None):
+        if tmo is None:
+            continue  # "wait for ever" against a mute server does what it says
+        add(f"close-timeout-{tmo!r}-from-on_message-mute-server", mute, "own-close", hooks={"on_message": lambda run, app, *a, tmo=tmo: app.close(timeout=tmo)})
+        add(f"close-timeout-{tmo!r}-from-on_open-mute-server", mute, "own-close", hooks={"on_open": lambda run, app, *a, tmo=tmo: app.close(timeout=tmo)})
+    # the application's own close() from a frame callback, and then on_close itself is interrupted / fails
+    add("close-from-on_message-then-keyboard-interrupt-in-on_close", two, "interrupt", hooks={"on_message": closer}, raising={"on_close": lambda: KeyboardInterrupt()})
+    add("close-from-on_ping-then-keyboard-interrupt-in-on_close", [ok(msg, (1.5, "frames", R.encode(R.PING, b"pi")), (30.0, "frames", text("never")))], "interrupt",
+        hooks={"on_ping": closer}, raising={"on_close": lambda: KeyboardInterrupt()})
     add("ping-timeout-mute-server-tls", [ok(msg, pong=None, answer_close=False)], "error", run_kwargs=dict(ping_interval=3, ping_timeout=1), url="wss://app.test/")
     add("illegal-frame-mute-server-tls", [ok(msg, (2.0, "frames", bytes([0xC1, 0x01, 0x41])), answer_close=False)], "error", url="wss://app.test/")
     add("server-close-code-reason-tls", [ok(msg, (2.0, "close", b"\x0f\xa0going away"))], "close-frame", (4000, "going away"), url="wss://app.test/")
